@@ -63,7 +63,16 @@ def corpus():
               _grid_case((-3, 5, -3, 5), None, (0.5, 4.0), "spacing", True, [2.0], True, "corpus-square-region"),
               _grid_case((0, 10, 0, 10), (3, 3), None, "spacing", False, None, True, "corpus-square-region"),
               _grid_case((0, 10, 0, 10), (4, 7), None, "spacing", True, None, True, "corpus-square-region")]
-    return dangerous + near + square + _corpus()
+    # decimal bounds for which `start + (stop - start)` is NOT `stop` in double precision: the last node is the east / north bound itself
+    inexact = []
+    pairs = [(a / 10.0, b / 10.0) for a in range(-23, 40, 3) for b in range(a + 4, a + 60, 7)]
+    pairs = [(a, b) for a, b in pairs if a + (b - a) != b][:6]
+    for k, (a, b) in enumerate(pairs):
+        inexact.append(_line_case(a, b, 5 + k, None, "spacing", False, "corpus-inexact-difference-bounds"))
+        inexact.append(_line_case(a, b, None, (b - a) / (3 + k), "spacing", False, "corpus-inexact-difference-bounds"))
+    if len(pairs) >= 2:
+        inexact.append(_grid_case((pairs[0][0], pairs[0][1], pairs[1][0], pairs[1][1]), (4, 6), None, "spacing", False, None, True, "corpus-inexact-difference-bounds"))
+    return dangerous + near + square + inexact + _corpus()
 
 
 def _corpus():
